@@ -495,6 +495,11 @@ fn cp_word(ans: &J) -> &'static str {
 fn okfail<T, E>(r: &Result<T, E>) -> &'static str {
     if r.is_ok() { "ok" } else { "fail" }
 }
+/// the second FFI witness of a check-parse call: the typed answer and the JSON-string answer, which must be one word
+fn cp_both(typed: &J, via_str: Result<String, serde_json::Error>) -> &'static str {
+    let s: J = via_str.ok().and_then(|t| serde_json::from_str(&t).ok()).unwrap_or(J::Null);
+    if cp_word(typed) == cp_word(&s) && typed["type"] == s["type"] { cp_word(typed) } else { "split" }
+}
 fn op_check_parse(world: &J, op: &J) -> R<J> {
     let kind = st(&op[1], "kind")?;
     let (a, b, c) = (us(&op[2], "a")?, us(&op[3], "b")?, bo(&op[4], "c")?);
@@ -505,14 +510,16 @@ fn op_check_parse(world: &J, op: &J) -> R<J> {
             let j1 = ffi::check_parse_policy_set_json(ffi_policy_set(src)?).map_err(|e| e.to_string())?;
             let typed: ffi::PolicySet = serde_json::from_value(ffi_policy_set(src)?).map_err(|e| e.to_string())?;
             let j2 = ser(&ffi::check_parse_policy_set(typed));
-            json!({"ffi": cp_word(&j1), "ffi2": cp_word(&j2), "api": okfail(&api_policy_set(src)?)})
+            let w2 = cp_both(&j2, ffi::check_parse_policy_set_json_str(&ffi_policy_set(src)?.to_string()));
+            json!({"ffi": cp_word(&j1), "ffi2": w2, "api": okfail(&api_policy_set(src)?)})
         }
         "schema" => {
             let src = &world["schemaSources"][a - 1];
             let j1 = ffi::check_parse_schema_json(ffi_schema(src)?).map_err(|e| e.to_string())?;
             let typed: ffi::Schema = serde_json::from_value(ffi_schema(src)?).map_err(|e| e.to_string())?;
             let j2 = ser(&ffi::check_parse_schema(typed));
-            json!({"ffi": cp_word(&j1), "ffi2": cp_word(&j2), "api": okfail(&api_schema(src)?)})
+            let w2 = cp_both(&j2, ffi::check_parse_schema_json_str(&ffi_schema(src)?.to_string()));
+            json!({"ffi": cp_word(&j1), "ffi2": w2, "api": okfail(&api_schema(src)?)})
         }
         "entities" => {
             let doc = &world["entDocs"][a - 1];
@@ -525,13 +532,15 @@ fn op_check_parse(world: &J, op: &J) -> R<J> {
                 api_schema_r = api_schema(src)?.map(Some);
             }
             let j1 = ffi::check_parse_entities_json(call.clone()).map_err(|e| e.to_string())?;
+            let via_str = ffi::check_parse_entities_json_str(&call.to_string());
             let typed: ffi::EntitiesParsingCall = serde_json::from_value(call).map_err(|e| e.to_string())?;
             let j2 = ser(&ffi::check_parse_entities(typed));
+            let w2 = cp_both(&j2, via_str);
             let api = match api_schema_r {
                 Err(_) => "fail",
                 Ok(s) => okfail(&Entities::from_json_value(ents, s.as_ref())),
             };
-            json!({"ffi": cp_word(&j1), "ffi2": cp_word(&j2), "api": api})
+            json!({"ffi": cp_word(&j1), "ffi2": w2, "api": api})
         }
         "context" => {
             let req = &world["reqs"][a - 1];
@@ -547,8 +556,10 @@ fn op_check_parse(world: &J, op: &J) -> R<J> {
                 call["action"] = euid_json(&req["action"]);
             }
             let j1 = ffi::check_parse_context_json(call.clone()).map_err(|e| e.to_string())?;
+            let via_str = ffi::check_parse_context_json_str(&call.to_string());
             let typed: ffi::ContextParsingCall = serde_json::from_value(call).map_err(|e| e.to_string())?;
             let j2 = ser(&ffi::check_parse_context(typed));
+            let w2 = cp_both(&j2, via_str);
             let action = EntityUid::from(uid_from_wire(&req["action"])?);
             let api = match api_schema_r {
                 Err(_) => "fail",
@@ -563,7 +574,7 @@ fn op_check_parse(world: &J, op: &J) -> R<J> {
                     }
                 }
             };
-            json!({"ffi": cp_word(&j1), "ffi2": cp_word(&j2), "api": api})
+            json!({"ffi": cp_word(&j1), "ffi2": w2, "api": api})
         }
         k => return err(format!("checkParse kind {k}")),
     })
@@ -726,8 +737,12 @@ fn op_conv_schema(world: &J, op: &J) -> R<J> {
 fn op_format(world: &J, op: &J) -> R<J> {
     let (k, lw, iw) = (us(&op[1], "k")?, us(&op[2], "lw")?, op[3].as_i64().ok_or("iw")?);
     let text = src_text(&world["polSources"][k - 1], false)?;
-    let ans = ffi::format_json(json!({"policyText": text, "lineWidth": lw, "indentWidth": iw})).map_err(|e| e.to_string())?;
-    let (f, back) = if ans["type"] == "success" {
+    let call = json!({"policyText": text, "lineWidth": lw, "indentWidth": iw});
+    let ans = ffi::format_json(call.clone()).map_err(|e| e.to_string())?;
+    let via_str: J = ffi::format_json_str(&call.to_string()).ok().and_then(|t| serde_json::from_str(&t).ok()).unwrap_or(J::Null);
+    let (f, back) = if via_str["type"] != ans["type"] || via_str["formatted_policy"] != ans["formatted_policy"] {
+        (json!(["split"]), fail())
+    } else if ans["type"] == "success" {
         let t = ans["formatted_policy"].as_str().unwrap_or("");
         (json!(["ok", t]), proj_text(t))
     } else {
